@@ -2,6 +2,7 @@ import OsacaVerif.Model.LCD
 import OsacaVerif.Spec.Deps
 import OsacaVerif.Lemmas.Chain
 import OsacaVerif.Lemmas.CritPath
+import OsacaVerif.Lemmas.CpRepaired
 import OsacaVerif.Props.C03
 /-
   C04 — Critical path is the longest latency-weighted dependency chain.
@@ -312,6 +313,67 @@ example :
     isPath es p = true ∧ total (cpReport witness es p) = 3 ∧
     pathW (edgeW es) p + latOfK witness (lastLine p) = 3 ∧
     (chainOf es p).len (infosOf witness) = 7 := by
+  decide +kernel
+
+/-! ### the REPAIRED `get_critical_path` (`LCD.cpTable` / `LCD.cpStep` / `LCD.cpTotal`,
+    `Lemmas/CpRepaired.lean`)
+
+  Hypotheses (all decidable): `WFKernel k` — strictly increasing line numbers; `LoadsKnown k` —
+  `latency_wo_load` is known wherever an instruction has a separate load node; `NonnegStages k` —
+  `latWoLoad ≤ lat` there; `NonnegLats k`, `NonnegParams par` — non-negative latencies and model
+  parameters.  Graph-generic forms take instead `NonnegWeights es` (all edge weights ≥ 0) and
+  `LoadStagesAgree k es` (the edge from the load node of a line carries that instruction's load
+  stage); `create_nonnegWeights` / `create_loadStagesAgree` establish them for `DG.create`. -/
+
+/-- **`cpTotal_eq_longestChain`, graph-generic**: for ANY kernel (any length) and ANY edge list with
+    non-negative weights whose load-node edges carry the load stages, the total the repaired code
+    reports is the value of the declarative longest-chain programme — the two tables agree row by row
+    (`cpTable_eq_table`: `carried.1 = b`, `longer.map (·.1) = ext`). -/
+theorem cpTotal_eq_longestChain_graph (k : List Ins) (es : List Edge) (hw : NonnegWeights es)
+    (hls : LoadStagesAgree k es) :
+    cpTotal k es = longestChain (infosOf k) (wedgesOf es) :=
+  cpTotal_eq_longestChain_of k es hw hls
+
+/-- **`cpTotal_eq_longestChain`**: on the dependency graph OSACA builds, for every kernel with
+    increasing line numbers, known load latencies and non-negative latencies, the critical-path total
+    of the repaired `get_critical_path` EQUALS the oracle `Spec.longestChain` (which is the maximum
+    chain length, `longestChain_is_max`). -/
+theorem cpTotal_eq_longestChain (isa : Isa) (fd : Bool) (par : Params) (k : List Ins) (hk : WFKernel k)
+    (hkn : LoadsKnown k) (hst : NonnegStages k) (hlat : NonnegLats k) (hpar : NonnegParams par) :
+    cpTotal k (create isa fd par k) = longestChain (infosOf k) (wedgesOf (create isa fd par k)) :=
+  cpTotal_eq_longestChain_of k _ (create_nonnegWeights isa fd par k hst hlat hpar)
+    (create_loadStagesAgree isa fd par k hk hkn)
+
+-- non-vacuity: the witness kernel of the old defect satisfies every hypothesis, and the repaired
+-- code reports 7 = load stage 4 + edge 3 + latency 0 (the old code reported 3)
+example : WFKernel witness ∧ LoadsKnown witness ∧ NonnegStages witness ∧ NonnegLats witness ∧
+    NonnegParams {} := by decide +kernel
+example : NonnegWeights (create .x86 false {} witness) ∧
+    LoadStagesAgree witness (create .x86 false {} witness) := by decide +kernel
+example : cpTotal witness (create .x86 false {} witness) = 7 ∧
+    longestChain (infosOf witness) (wedgesOf (create .x86 false {} witness)) = 7 := by decide +kernel
+
+/-- a kernel whose first instruction has a load node but no `latency_wo_load` -/
+def unknownLoad : List Ins :=
+  [ mkIns 1 [.mem ⟨some ⟨[], Text.ofString "rax", false, false⟩, none, 1, none, false, false, [1]⟩]
+      [r "xmm0"] [] 7 none true,
+    mkIns 2 [r "xmm0"] [r "xmm1"] [] 0 (some 0) false ]
+
+/-- a kernel with a negative latency -/
+def negLat : List Ins :=
+  [ mkIns 1 [] [r "xmm0"] [] (-1) none false, mkIns 2 [r "xmm0"] [r "xmm1"] [] 5 none false ]
+
+-- the hypotheses are needed (model as written): (a) without `LoadsKnown` the model's load edge weighs
+-- `lat − 0` while the oracle's load stage is 0 (the real code cannot compute `latency − None` at all);
+-- (b) with a negative edge weight `chain_length` adds the negative `longer` value where the longest
+-- chain is the single instruction
+example : ¬ LoadsKnown unknownLoad ∧ WFKernel unknownLoad ∧
+    cpTotal unknownLoad (create .x86 false {} unknownLoad) = 14 ∧
+    longestChain (infosOf unknownLoad) (wedgesOf (create .x86 false {} unknownLoad)) = 7 := by
+  decide +kernel
+example : ¬ NonnegLats negLat ∧ WFKernel negLat ∧ LoadsKnown negLat ∧
+    cpTotal negLat (create .x86 false {} negLat) = 4 ∧
+    longestChain (infosOf negLat) (wedgesOf (create .x86 false {} negLat)) = 5 := by
   decide +kernel
 
 end OsacaVerif.Props.C04
